@@ -32,11 +32,19 @@ SMALL_CFG_CAP = {"quick": 6, "thorough": 16}
 
 class Entry:
     def __init__(self, key, name, bind, corpus, prefix, steer=False, family=None, crc=None, repro=None, cfgkey=None,
-                 small=None, unit=None, heavy=False):
+                 small=None, unit=None, heavy=False, do_small=True, steer_small=None):
         self.key, self.name, self.bind, self._corpus, self.prefix, self.steer = key, name, bind, corpus, prefix, steer
         self.family, self._crc, self.repro, self.cfgkey, self._small, self.unit = family, crc, repro, cfgkey, small, unit
         self.heavy = heavy  # the corpus is a product (unit x managed parameters): substitution region reduced in quick
+        self.do_small = do_small  # False: another entry with the same call and configurations runs the small strings
+        self._steer_small = steer_small
+        self.shared = False  # the name is shared by several corpora: violations of the prefix clause name the unit
         self._cache = {}
+
+    def steer_cfgs(self, tier):
+        """configurations under which the strings of length 3 are enumerated (thorough, steering entry points)"""
+        cfgs = self.small_cfgs(tier)
+        return [c for c in cfgs if self._steer_small(c)] if self._steer_small else cfgs
 
     def crc(self, recipe):
         return bool(self._crc(recipe)) if self._crc else False
@@ -162,14 +170,17 @@ for _k in ("CfdpTlv", "EntityIdTlv", "FlowLabelTlv", "FaultHandlerOverrideTlv", 
 
 
 def repro_source(entry, recipe, buf):
+    """self-contained python source that makes the one call (only `import spacepackets`)"""
     if entry.repro is None:
         return None
-    grp, expr = entry.repro
+    lit = "bytes.fromhex('%s')" % bytes(buf).hex()
     try:
-        body = expr.format(b="bytes.fromhex('%s')" % bytes(buf).hex(), r=recipe or {})
-    except Exception:
+        if callable(entry.repro):
+            return entry.repro(recipe, lit)
+        grp, expr = entry.repro
+        return _IMPORTS[grp] + "\n" + expr.format(b=lit, r=recipe or {})
+    except Exception:  # a repro is a convenience, never a reason to fail
         return None
-    return _IMPORTS[grp] + "\n" + body
 
 
 def _unit_corpus(unit, stride_to=None):
@@ -221,7 +232,7 @@ def _frame_entries(unit):
         unpack = f.TransferFrame.unpack
         return lambda b: unpack(raw_frame=b, frame_type=ft, frame_properties=props)
 
-    return bind, (lambda r: mp_of(r)[:1] + mp_of(r)[2:])
+    return bind, (lambda r: mp_of(r)[:1] + mp_of(r)[2:]), mp_of
 
 
 MP_ZONES = [(iz, fecf) for iz in (None, 1, 4) for fecf in (None, 2, 4)]
@@ -267,12 +278,23 @@ def _mp_entry(ft):
         unpack = f.TransferFrame.unpack
         return lambda b: unpack(raw_frame=b, frame_type=t, frame_properties=props)
 
-    return Entry(f"mp:{ft}", f"TransferFrame.unpack({ft})", bind, corpus, prefix=False, small=small, cfgkey=lambda r: r["mp"], heavy=True,
-                 repro=("uslp", "TransferFrame.unpack({b}, FrameType.%s, %s({r[mp][1]}, has_insert_zone={r[mp][2]} is not None, has_fecf={r[mp][3]} is not None, "
-                                "insert_zone_len={r[mp][2]}, fecf_len={r[mp][3]}))" % (("FIXED", "FixedFrameProperties") if ft == "fixed" else ("VARIABLE", "lambda n, **k: VarFrameProperties(truncated_frame_len=n, **k)"))))
+    return Entry(f"mp:{ft}", f"TransferFrame.unpack({ft})", bind, corpus, prefix=False, small=small, cfgkey=lambda r: r["mp"], heavy=True, repro=_mp_repro)
 
 
 TFDF_EXACT = ["len", 0, 1, 2, 3, 4, 65535]
+
+
+def _tfdf_repro(recipe, lit):
+    ft = {None: "None", "fixed": "FrameType.FIXED", "var": "FrameType.VARIABLE"}[recipe["ft"]]
+    ex = "len(b)" if recipe["exact"] == "len" else str(recipe["exact"])
+    return _IMPORTS["uslp"] + f"\nb = {lit}\nTransferFrameDataField.unpack(b, truncated={recipe['trunc']}, exact_len={ex}, frame_type={ft})"
+
+
+def _mp_repro(recipe, lit):
+    ft, n, iz, fecf = recipe["mp"]
+    kw = f"has_insert_zone={iz is not None}, has_fecf={fecf is not None}, insert_zone_len={iz}, fecf_len={fecf}"
+    props = f"FixedFrameProperties(fixed_len={n}, {kw})" if ft == "fixed" else f"VarFrameProperties(truncated_frame_len={n}, {kw})"
+    return _IMPORTS["uslp"] + f"\nTransferFrame.unpack({lit}, FrameType.{'FIXED' if ft == 'fixed' else 'VARIABLE'}, {props})"
 
 
 def _tfdf_entry():
@@ -306,8 +328,7 @@ def _tfdf_entry():
         return lambda b: unpack(raw_tfdf=b, truncated=trunc, exact_len=exact, frame_type=ft)
 
     return Entry("tfdf:any", "TransferFrameDataField.unpack", bind, corpus, prefix=False, steer=True, small=small,
-                 cfgkey=lambda r: (r["ft"], r["trunc"], r["exact"]), heavy=True,
-                 repro=("uslp", "TransferFrameDataField.unpack({b}, truncated={r[trunc]}, exact_len={r[exact]}, frame_type={r[ft]!r})  # frame_type: FrameType.FIXED / VARIABLE / None; exact_len 'len' = len of the octets"))
+                 cfgkey=lambda r: (r["ft"], r["trunc"], r["exact"]), heavy=True, steer_small=lambda c: c["exact"] == "len", repro=_tfdf_repro)
 
 
 # ----------------------------------------------------------------------------------- entry points not in the registry
@@ -361,7 +382,7 @@ def _extras(reg):
 
     out.append(Entry("x:srv1-source-data", "Service1Tm.unpack", s1_bind, s1_corpus, prefix=False, small=s1_small,
                      cfgkey=lambda r: (r["sub"], r["step_w"], r["err_w"]),
-                     repro=("ecss", "import crcmod.predefined\nraw = PusTm(1, {r[sub]}, b'', {b}, apid=0x123, seq_count=5).pack()  # valid service-1 TM around the malformed source data\n"
+                     repro=("ecss", "raw = PusTm(1, {r[sub]}, b'', {b}, apid=0x123, seq_count=5).pack()  # valid service-1 TM around the malformed source data\n"
                                     "Service1Tm.unpack(bytes(raw), UnpackParams({r[ts_len]}, {r[step_w]}, {r[err_w]}))")))
 
     # --- CFDP
@@ -438,9 +459,10 @@ def entries():
     for uname, unit in reg.items():
         prefix = bool(unit.self_delimiting or unit.is_cfdp_pdu)  # a length field or a fixed size (DESIGN.md 5.6)
         if uname.startswith("UslpTransferFrame") and uname != "UslpTransferFrameDataField":
-            bind, ck = _frame_entries(unit)
-            e = Entry(f"{uname}:TransferFrame.unpack", f"TransferFrame.unpack({unit.kind})", bind, _unit_corpus(unit), prefix,
-                      family=FAMILY.get(uname), cfgkey=ck, unit=unit)
+            bind, ck, mpf = _frame_entries(unit)
+            name = "TransferFrame.unpack(%s)" % ("fixed" if unit.kind == "fixed" else "var")  # kind trunc: variable type, truncated header
+            e = Entry(f"{uname}:TransferFrame.unpack", name, bind, _unit_corpus(unit), prefix, family=FAMILY.get(uname), cfgkey=ck, unit=unit,
+                      do_small=False, repro=(lambda mp_of_: lambda r, lit: _mp_repro({"mp": mp_of_(r)}, lit))(mpf))
             out[e.key] = e
             continue
         for dname, fn in unit.decoders():
@@ -452,5 +474,15 @@ def entries():
             out[e.key] = e
     for e in _extras(reg):
         out[e.key] = e
+    seen = {}
+    for e in out.values():
+        seen.setdefault(e.name, []).append(e)
+    for name, es in seen.items():
+        if len(es) > 1:
+            for e in es:
+                e.shared = True
+            if all(x.cfgkey is None for x in es):  # same call, no configuration: the small strings once
+                for e in es[1:]:
+                    e.do_small = False
     _ENTRIES = out
     return out
